@@ -3,6 +3,7 @@ import NavisModel.Model.VolCache
 import NavisModel.Gen.VolCache
 import NavisModel.Model.InVolumeShape
 import NavisModel.Gen.InVolume
+import NavisModel.Gen.SnapCast
 import NavisModel.Drv.Proto
 /-!
 Line protocol for C18.  Segments are separated by `|`, blanks around separators are ignored.
@@ -40,6 +41,10 @@ Commands
 * `c18.backend available,… | requested,…` → selected back-end or `ERR:none-available`
 * `c18.rays default | n` (`n` an integer or `None`) → effective ray count or `ERR:value`
 * `c18.pyoc bboxbits | raybits;raybits;…` → bits (`pyocLoop`: the per-ray verdicts of `in_volume_pyoc` combined)
+* `c18.snapq CLASS isInt(0/1) | data | ids | q10;q10…` → `id:dd:nties;…` — `snapQ` with the cast GENERATED from the source for
+  `CLASS` ∈ TreeNeuron|MeshNeuron|Dotprops; queries in tenths, `dd` = 100·dist² from the cast query, `nties` rows at that distance
+* `c18.chknearq data | q10 | ix | num | den` → `1`/`0` (`checkNearestQ`: true nearest row, distance `num/den` within tolerance)
+* `c18.snapcasts` → `TreeNeuron=float64,MeshNeuron=data,…`
 * `c18.chkpart all | a | b`, `c18.chkconn conns | keptNodes | keptConns`, `c18.chknear data | p | ix | dd` → `1`/`0`
 -/
 namespace Navis.Drv.C18
@@ -302,6 +307,22 @@ def run (cmd : String) (rest : String) : Option String :=
       if ids.isEmpty then (snapIdx data q).map fun r => s!"{r.1}:{r.2}"
       else (snapId ids data q).map fun r => s!"{r.1}:{r.2}"
     pure (";".intercalate (qs.map fun q => (one q).getD "none"))
+  | "snapq", [hd, data, ids, qs] => do
+    match words hd with
+    | [cls, isInt] => do
+      let isInt ← parseFlag isInt
+      let data ← parsePts data; let ids ← intList? ids; let qs ← parsePts qs
+      let c := Navis.Gen.SnapCast.castOf cls
+      let one := fun q => (snapQ c isInt data q).map fun r =>
+        s!"{if ids.isEmpty then (r.1 : Int) else ids.getD r.1 0}:{r.2}:{snapQTies c isInt data q}"
+      pure (";".intercalate (qs.map fun q => (one q).getD "none"))
+    | _ => none
+  | "chknearq", [data, q, ix, num, den] => do
+    let data ← parsePts data; let q ← parseP3 q; let ix ← ix.toNat?; let num ← num.toInt?; let den ← den.toInt?
+    pure (b01 (checkNearestQ data q ix num den))
+  | "snapcasts", _ =>
+    pure (",".intercalate (Navis.Gen.SnapCast.casts.map fun x =>
+      s!"{x.1}={match x.2 with | .float64 => "float64" | .data => "data" | .other => "other"}"))
   | "chkpart", [all, a, b] => do
     let all ← intList? all; let a ← intList? a; let b ← intList? b
     pure (b01 (checkPartition all a b))
